@@ -736,3 +736,74 @@ Proof.
   unfold evatra_wf. cbn. repeat split; try lra; try lia.
   repeat constructor; lra.
 Qed.
+
+(* ---------------------------------------------------------------- *)
+(* 12. the day: what the Water sub-steps really take out and book as actual ET.  Every sub-step adds
+   sum_i TP[i]*wdt + ETA*wdt to PFTRANS (water.go:954,970; the same terms go to ETAG after sowing and the
+   TP part to TRAY).  With k >= 1 sub-steps of length 1/k — what C01_substeps_cover_day establishes for the
+   day loop's own choice — the day's booked amount is ETA + sum of the clamped uptakes, hence at most the
+   potential ET.                                                                                      *)
+Lemma Rsum_le_pointwise (l l' : list R) : length l = length l' ->
+  (forall i, (i < length l)%nat -> get 0 l i <= get 0 l' i) -> Rsum l <= Rsum l'.
+Proof.
+  revert l'. induction l as [|a l IH]; intros [|b l'] Hlen H; cbn in Hlen; try lia; cbn [Rsum]; [lra|].
+  pose proof (H 0%nat ltac:(cbn; lia)) as H0. unfold get in H0. cbn in H0.
+  assert (Rsum l <= Rsum l'). { apply IH; [lia|]. intros i Hi. apply (H (S i)). cbn. lia. }
+  lra.
+Qed.
+
+Definition booked_aet (k : nat) (x : water_in (T:=R)) : R :=
+  Rsum (map (fun o => Rsum (wo_tpsum_terms o) + wi_eta x * wi_wdt x) (water_iter k x)).
+
+Lemma booked_aet_eq (x : water_in (T:=R)) (n k : nat) :
+  wf_in x n -> (1 <= k)%nat -> wi_wdt x = / INR k ->
+  booked_aet k x = wi_eta x + Rsum (wo_tp (water_step x)).
+Proof.
+  intros Hwf Hk Hwdt. unfold booked_aet.
+  assert (HINR : INR k <> 0) by (apply not_0_INR; lia).
+  assert (Hsplit : forall (c : R) (l : list (water_out (T:=R))),
+            Rsum (map (fun o => Rsum (wo_tpsum_terms o) + c) l) =
+            Rsum (map (fun o => Rsum (wo_tpsum_terms o)) l) + INR (length l) * c).
+  { intros c l. induction l as [|o l IH]; [cbn; lra|].
+    cbn [map Rsum]. rewrite IH.
+    replace (INR (length (o :: l))) with (INR (length l) + 1) by (cbn [length]; rewrite S_INR; reflexivity). lra. }
+  rewrite Hsplit, water_iter_length.
+  assert (E2 : Rsum (map (fun o => Rsum (wo_tpsum_terms o)) (water_iter k x)) = Rsum (wo_tp (water_step x))).
+  { destruct k as [|k]; [lia|]. cbn [water_iter]. cbv zeta. cbn [map Rsum].
+    destruct (water_next_wf x n Hwf) as [Hwf' Hs'].
+    pose proof (water_iter_tp k (water_next x (water_step x)) n Hwf' Hs') as HF.
+    cbn [wi_wdt wi_tp water_next] in HF.
+    assert (Hsum : Rsum (map (fun o => Rsum (wo_tpsum_terms o)) (water_iter k (water_next x (water_step x))))
+                   = INR (length (water_iter k (water_next x (water_step x)))) * (Rsum (wo_tp (water_step x)) * wi_wdt x)).
+    { induction HF as [|o l Ho HF IH]; cbn [map Rsum]; [cbn; lra|].
+      rewrite Ho, IH, Rsum_map_scale.
+      replace (INR (length (o :: l))) with (INR (length l) + 1) by (cbn [length]; rewrite S_INR; reflexivity).
+      lra. }
+    rewrite Hsum, water_iter_length, water_step_terms, Rsum_map_scale, Hwdt. rewrite S_INR in *. field. exact HINR. }
+  rewrite E2, Hwdt. field. exact HINR.
+Qed.
+
+Lemma booked_le_pet_lemma (e : evatra_in (T:=R)) (x : water_in (T:=R)) (n k : nat) :
+  evatra_wf e -> wf_in x n -> wi_subd1 x = true ->
+  wi_tp x = eo_tp (evatra_struct e) -> wi_eta x = eo_eta (evatra_struct e) ->
+  (1 <= k)%nat -> wi_wdt x = / INR k ->
+  booked_aet k x = wi_eta x + Rsum (wo_tp (water_step x)) /\
+  0 <= booked_aet k x <= ei_verdu e.
+Proof.
+  intros He Hwf Hs Htp Heta Hk Hwdt.
+  pose proof (booked_aet_eq x n k Hwf Hk Hwdt) as Eb. split; [exact Eb|]. rewrite Eb.
+  destruct (aet_le_pet_lemma e He) as (A1 & A2 & A3 & A4 & A5). cbv zeta in *.
+  pose proof (water_step_balance_lemma x n Hwf) as HB. cbv zeta in HB. destruct HB as (_ & _ & _ & Ltp').
+  destruct Hwf as (Hn & Lwg & Ltp & Hrest).
+  assert (Hpt : forall i, (i < n)%nat ->
+            0 <= get 0 (wo_tp (water_step x)) i <= get 0 (wi_tp x) i).
+  { intros i Hi.
+    destruct (uptake_avail_lemma x n (conj Hn (conj Lwg (conj Ltp Hrest))) Hs i Hi) as [_ H2]. cbv zeta in H2.
+    apply H2. rewrite Htp. unfold get. rewrite Forall_forall in A4. apply A4. apply nth_In. rewrite <- Htp. lia. }
+  assert (Hle : Rsum (wo_tp (water_step x)) <= Rsum (wi_tp x)).
+  { apply Rsum_le_pointwise; [lia|]. intros i Hi. apply Hpt. lia. }
+  assert (H0 : 0 <= Rsum (wo_tp (water_step x))).
+  { apply Rsum_nonneg. apply Forall_forall. intros t Hin. destruct (In_nth _ _ 0 Hin) as (i & Hi & <-).
+    apply (Hpt i). lia. }
+  rewrite Heta, Htp in *. lra.
+Qed.
